@@ -35,7 +35,8 @@ CHECKS = {
     technique="explicit-state exploration of all decode-call sequences (depth 3/4) over a per-ISA menu on the one real disassembler object; state = pending prefix instruction; reference = same call made first in a fresh process",
     text="Per ISA mode every sequence of menu calls (valid, prefix+valid, lone prefixes, two prefixes, prefix+undecodable, undecodable, empty, too short, "
          "inputs whose setup function raises with/without prefix) up to the depth is executed; after every call the pending instruction must be None and the outcome "
-         "(bytes, mnemonic, operands, type, misc) must equal the first-call outcome from a fresh process. Exceptions are transitions like any other.",
+         "(bytes, mnemonic, operands, type, misc) must equal the first-call outcome from a fresh process. Exceptions are transitions like any other. The instruction objects returned by the earlier calls of a history "
+         "are kept and must still render as in the fresh process after the later calls (x86/x64 menus hold one ModRM instruction in each addressing form of getModRM under two displacements, so that two calls meet in any object such a path shares).",
     note="The reachable state space closes at the single state 'no pending instruction' when the property holds, so all |A|^3 (quick) / |A|^4 (thorough) sequences are run without de-duplication. "
          "Raising inputs are taken from the C17 known-finding witnesses of the same ISA.",
     design="DESIGN.md section 3, C11"),
@@ -129,7 +130,7 @@ CHECKS = {
  "C05": dict(
     category="model_checking",
     technique="complete spec-driven enumeration of instruction words per ISA mode; prefix/length/truncation/extension/window relations checked on every decoded instruction",
-    text="For every byte string of the spec-driven enumeration (fields walked, tails, x86 ModRM/SIB/prefix menus) that decodes: length within bounds, bytes a prefix of the input, "
+    text="For every byte string of the spec-driven enumeration (fields walked, tails, x86 ModRM/SIB/prefix menus incl. the 67 address-size override before every ModRM class and every moffs/variable form) that decodes: length within bounds, bytes a prefix of the input, "
          "decoding exactly the consumed bytes, the consumed bytes followed by each tail of the menu, and the maxlen window all yield the same instruction (bytes, mnemonic, operands, type, misc). Every shorter prefix of the consumed bytes that already decodes must decode to the same instruction.",
     note="Same enumerator and bounds as C17. Known findings (dwarf/wasm/msp430 LEB/immediate tails accepted when missing) are listed in KNOWN_FINDINGS.json keyed by (ISA, mode, relation, setup function).",
     design="DESIGN.md section 3, C05"),
@@ -142,10 +143,10 @@ CHECKS = {
     design="DESIGN.md section 3, C06"),
  "C07": dict(
     category="model_checking",
-    technique="complete spec-driven enumeration of 15-byte x86/x64 candidates (every shipped spec, Mod x RM, SIB, prefix and branch menus) compared with a vendored reference table produced by binutils objdump and LLVM llvm-objdump",
+    technique="complete spec-driven enumeration of 15-byte x86/x64 candidates (every shipped spec, Mod x RM, SIB, prefix, address-size-override and branch menus) compared with a vendored reference table produced by binutils objdump and LLVM llvm-objdump",
     text="Every candidate of the enumeration, in 32- and 64-bit mode, is looked up in the reference table (rows missing from the vendored table - e.g. because a modified tree enumerates new candidates - are computed on the fly with the installed tools). "
          "Where both references agree on a valid instruction and amoco decodes at all, amoco's length must equal theirs and relative jmp/jcc/call/loop displacements must equal target - next address.",
-    note="~150 000 candidates, ~120 000 eligible rows compared (quick); thorough adds all 65 536 two-byte prefixes x 3 tails. The 'random byte strings' clause is replaced by this structured cross product. References: binutils 2.40, LLVM 14.",
+    note="~173 000 candidates, ~135 000 eligible rows compared (quick; includes 67 x mod 0..2 x r/m {0,4,5,6} for every ModRM spec, i.e. the 16-bit addressing table in 32-bit mode); thorough adds all 65 536 two-byte prefixes x 3 tails. The 'random byte strings' clause is replaced by this structured cross product. References: binutils 2.40, LLVM 14.",
     design="DESIGN.md section 3, C07"),
  "C08": dict(
     category="model_checking",
